@@ -36,6 +36,23 @@ def text_identity(prog, R, rule):
                 R.ob(rule, f"{short(k)}->{c.split('::')[-2]}::{c.split('::')[-1]}", not bad, t["at"],
                      "the text argument is passed on unchanged" if not bad else f"the text handed to {c.split('::')[-1]} is not the caller's text: it originates from {sorted(str(x)[:60] for x in bad)[:3]}")
     R.floor("text hand-over sites", nh, 4)
+    # ... and the text of every leaf is the slice the builder was given: StrStep::Token{kind, text} is forwarded by
+    # build_tree's closure to SyntaxTreeBuilder::token, which hands `text` to rowan's GreenNodeBuilder::token as is
+    for fn_, callee_, want_ in (("oq3_syntax::syntax_node::SyntaxTreeBuilder::token", "rowan::GreenNodeBuilder::token", "text"),
+                                ("oq3_syntax::parsing::build_tree::{closure#0}", "SyntaxTreeBuilder::token", "step.1")):
+        b_ = prog.body(fn_)
+        if b_ is None:
+            R.ob("ANCHOR", fn_, False)
+            continue
+        got_ = set()
+        for p_ in SymExec(prog, b_, max_paths=400).paths():
+            if "__diverged__" in p_.env:
+                continue
+            for c_ in p_.calls:
+                if c_[0].endswith(callee_):
+                    got_.add(show(deep_strip(c_[1][2])))
+        R.ob(rule, f"{short(fn_)}->{callee_.split('::')[-2]}::{callee_.split('::')[-1]}", got_ == {want_}, b_.at,
+             "the token text is passed on unchanged" if got_ == {want_} else f"the text handed to {callee_.split('::')[-1]} is {sorted(got_)[:3]}, not the token's own text `{want_}`: a leaf of the tree spells something else than the input slice")
 
 
 def run(prog, R):
